@@ -206,6 +206,8 @@ def main(argv=None):
         print("VIOLATION property=%s replay=%s" % (prop, path))
         print("  key=%s %s" % (v["key"], str(v.get("msg", ""))[:300]))
     if new:
+        for k, c in sorted(seen_keys.items(), key=lambda kv: -kv[1])[:40]:
+            print("  count %6d  %s" % (c, k))
         print("violations: %d new (%d distinct keys), %d known" % (
             len(new), len(seen_keys), sum(len(h) for h in known_hits.values())))
 
